@@ -1,6 +1,7 @@
 """C20 — Parsing and state construction never crash: a result or an exception."""
 import json, os
 from .. import vlib
+from . import _decktext
 
 TRUSTED = [
     "Lean 4.33 kernel; axioms per theorem under coverage.axioms (subset of propext, Classical.choice, Quot.sound)",
@@ -11,12 +12,19 @@ TRUSTED = [
     "boost number parsers) is only exercised by the hardened fuzz run; heap errors that neither UBSan nor the libstdc++ assertions see "
     "(raw pointer arithmetic) would need ASan, which cannot be combined with the address-space limit",
     "scoping: the documented EXIT1 policy (process exit on a missing INCLUDE file) is turned into THROW_EXCEPTION by the harness",
+    "deck-text lexer part: translate/rawconsts.py (separator/quote tables, code keywords), hooks/decktext.patch (add-only wrappers exporting the "
+    "anonymous-namespace lexer of Parser.cpp), harness/deck.cpp `corrlex` built against the UBSan/bounds-checked library, the differ; "
+    "Model/LexPtr.lean (pointer-level mirror: which iterator steps and dereferences the C++ performs) is read off the source - the tokeniser "
+    "mirror is additionally compared with the real RawRecord on every generated record; modelled, not verified: boost::spirit::qi number "
+    "conversion (parameter of the model), std::find/std::find_if_not on valid ranges, std::string::data()[size()] == NUL",
 ]
 
 
 def run(ctx):
     ctx.assumptions += ["byte strings reachable by structure-aware mutation of shipped decks and generated result files (quantifier of the property)"]
-    ctx.stage_translate(["eclio"])
+    ctx.assumptions += ["deck-text lexer theorems: C locale (std::toupper/std::isdigit/std::isalnum act on ASCII only; glibc accepts negative "
+                        "char values - no sanitizer or valgrind report, see design.d/C20.md)"]
+    ctx.stage_translate(["eclio", "rawconsts"])
     ok_main = ctx.stage_build_opm()
     ok, out = vlib.build_opm(hard=True)
     if not ok:
@@ -28,10 +36,26 @@ def run(ctx):
         ctx.tie_broken("harness", "fuzz harness does not compile: " + out[-2000:])
         return ctx.finish(trusted_base=TRUSTED)
     env = {"VERIF_REPO": vlib.REPO, "UBSAN_OPTIONS": "print_stacktrace=1:halt_on_error=1"}
+    # second correspondence stage: the lexer model the `lexer_*` theorems of Props/C20.lean are about
+    # (Model/Lex, Tok, RawKw, LexPtr) against the real lexical layer - function by function on
+    # arbitrary bytes plus keyword assembly - with the real code running under UBSan and
+    # bounds-checked libstdc++ containers (a report aborts the harness = crash violation).
+    okd, exed, outd = vlib.build_harness("deck", hard=True)
+    if not okd:
+        ctx.tie_broken("harness", "deck harness does not compile against the hardened build (is hooks/decktext.patch applied to the repo?): " + outd[-2000:])
     if ctx.stage_lean():
         ctx.stage_audit()
         ctx.stage_correspondence(exe, ["corr", ctx.seed, ctx.tier])
+        if okd:
+            _decktext.corr_with_canon(ctx, exed, label="corr-lexer", mode="corrlex", env=env)
     ctx.stage_property_mode(exe, ["prop", ctx.seed, ctx.tier], env=env, timeout=6000)
+    # deck-text probes that need a time bound of their own (each call in a child under alarm):
+    # section-selective parseFile, INCLUDE cycles - see design.d/C20.lexer.md, second round
+    okp, exep, outp = vlib.build_harness("deck")
+    if okp:
+        ctx.stage_property_mode(exep, ["probe20", ctx.seed, ctx.tier], label="prop-decktext", timeout=1200)
+    else:
+        ctx.tie_broken("harness", "deck harness does not compile: " + outp[-2000:])
     return ctx.finish(trusted_base=TRUSTED)
 
 
